@@ -537,3 +537,83 @@ func init() {
 			return obs
 		}})
 }
+
+// MAP.found-is-presence — C11 ("sorted maps behave as a finite map") / C14 (the
+// key constraints of a schema ask `is the key there`): the second result of a
+// map lookup says whether the key is PRESENT.  A key bound to () is present.
+// The flag may depend on the map's own storage (the Go comma-ok, or the
+// looked-up pointer being non-nil) and on nothing about the value found.
+func init() {
+	register(&Rule{ID: "MAP.found-is-presence", Floor: 1,
+		Doc: "in the sorted map's Get every `return <value>, true` is guarded only by presence tests — the element looked up in the backing Go map is non-nil, or the comma-ok of that lookup — and by nothing that inspects the value (IsNil, Type, length): key?, get-default, the schema key constraints and no-other-keys see a key whose value is () as present",
+		Run: func(c *Ctx) []Obligation {
+			const rid = "MAP.found-is-presence"
+			fn, fd, pkg := c.LookupFunc("lisp.sortedmap.Get")
+			if fn == nil {
+				fn, fd, pkg = c.LookupFunc("lisp.(*sortedmap).Get")
+			}
+			if fn == nil {
+				return []Obligation{anchorMissing(rid, "lisp.sortedmap.Get")}
+			}
+			u := FuncUnit{fn, fd, pkg}
+			info := pkg.TypesInfo
+			var obs []Obligation
+			ord := &ordinal{}
+			var stack []ast.Node
+			ast.Inspect(fd.Body, func(n ast.Node) bool {
+				if n == nil {
+					stack = stack[:len(stack)-1]
+					return true
+				}
+				stack = append(stack, n)
+				rs, ok := n.(*ast.ReturnStmt)
+				if !ok || len(rs.Results) != 2 || !isBoolConst(info, rs.Results[1], true) {
+					return true
+				}
+				construct := ord.next("return found")
+				bad := ""
+				for _, anc := range stack {
+					is, ok := anc.(*ast.IfStmt)
+					if !ok {
+						continue
+					}
+					// every atom: X != nil, or a bool ident (comma-ok)
+					var walk func(e ast.Expr)
+					walk = func(e ast.Expr) {
+						e = ast.Unparen(e)
+						switch x := e.(type) {
+						case *ast.BinaryExpr:
+							if x.Op == token.LAND || x.Op == token.LOR {
+								walk(x.X)
+								walk(x.Y)
+								return
+							}
+							if x.Op == token.NEQ || x.Op == token.EQL {
+								tx, okx := info.Types[x.X]
+								ty, oky := info.Types[x.Y]
+								if okx && oky && (tx.IsNil() || ty.IsNil()) {
+									return
+								}
+							}
+						case *ast.Ident:
+							if b, ok := info.TypeOf(x).Underlying().(*types.Basic); ok && b.Kind() == types.Bool {
+								return
+							}
+						}
+						bad = types.ExprString(e)
+					}
+					walk(is.Cond)
+					if as, ok := is.Init.(*ast.AssignStmt); ok {
+						_ = as
+					}
+				}
+				if bad != "" {
+					obs = append(obs, mkOb(c, rid, u, construct, rs, Violated, "whether the key is reported as found depends on `"+bad+"`, a property of the value stored under it: a key bound to () (or whatever the test excludes) reads as absent, so s:has-key fails on a map that has the key, s:no-other-keys and s:may-have-key pass maps they should judge, and lisp-built and JSON-decoded maps disagree", true))
+				} else {
+					obs = append(obs, mkOb(c, rid, u, construct, rs, Proved, "guarded by presence in the backing map only", true))
+				}
+				return true
+			})
+			return obs
+		}})
+}
